@@ -4,12 +4,27 @@ Base/Prelude.vos Base/Prelude.vok Base/Prelude.required_vos: Base/Prelude.v
 Model/Limiter.vo Model/Limiter.glob Model/Limiter.v.beautified Model/Limiter.required_vo: Model/Limiter.v Base/Prelude.vo
 Model/Limiter.vio: Model/Limiter.v Base/Prelude.vio
 Model/Limiter.vos Model/Limiter.vok Model/Limiter.required_vos: Model/Limiter.v Base/Prelude.vos
+Model/Breaker.vo Model/Breaker.glob Model/Breaker.v.beautified Model/Breaker.required_vo: Model/Breaker.v Base/Prelude.vo
+Model/Breaker.vio: Model/Breaker.v Base/Prelude.vio
+Model/Breaker.vos Model/Breaker.vok Model/Breaker.required_vos: Model/Breaker.v Base/Prelude.vos
 Proofs/LimiterProofs.vo Proofs/LimiterProofs.glob Proofs/LimiterProofs.v.beautified Proofs/LimiterProofs.required_vo: Proofs/LimiterProofs.v Base/Prelude.vo Model/Limiter.vo
 Proofs/LimiterProofs.vio: Proofs/LimiterProofs.v Base/Prelude.vio Model/Limiter.vio
 Proofs/LimiterProofs.vos Proofs/LimiterProofs.vok Proofs/LimiterProofs.required_vos: Proofs/LimiterProofs.v Base/Prelude.vos Model/Limiter.vos
+Proofs/BreakerProofs.vo Proofs/BreakerProofs.glob Proofs/BreakerProofs.v.beautified Proofs/BreakerProofs.required_vo: Proofs/BreakerProofs.v Base/Prelude.vo Model/Breaker.vo
+Proofs/BreakerProofs.vio: Proofs/BreakerProofs.v Base/Prelude.vio Model/Breaker.vio
+Proofs/BreakerProofs.vos Proofs/BreakerProofs.vok Proofs/BreakerProofs.required_vos: Proofs/BreakerProofs.v Base/Prelude.vos Model/Breaker.vos
 Cases/LimiterCase.vo Cases/LimiterCase.glob Cases/LimiterCase.v.beautified Cases/LimiterCase.required_vo: Cases/LimiterCase.v Base/Prelude.vo Model/Limiter.vo
 Cases/LimiterCase.vio: Cases/LimiterCase.v Base/Prelude.vio Model/Limiter.vio
 Cases/LimiterCase.vos Cases/LimiterCase.vok Cases/LimiterCase.required_vos: Cases/LimiterCase.v Base/Prelude.vos Model/Limiter.vos
+Cases/BreakerCase.vo Cases/BreakerCase.glob Cases/BreakerCase.v.beautified Cases/BreakerCase.required_vo: Cases/BreakerCase.v Base/Prelude.vo Model/Breaker.vo
+Cases/BreakerCase.vio: Cases/BreakerCase.v Base/Prelude.vio Model/Breaker.vio
+Cases/BreakerCase.vos Cases/BreakerCase.vok Cases/BreakerCase.required_vos: Cases/BreakerCase.v Base/Prelude.vos Model/Breaker.vos
 Props/C09.vo Props/C09.glob Props/C09.v.beautified Props/C09.required_vo: Props/C09.v Base/Prelude.vo Model/Limiter.vo Proofs/LimiterProofs.vo
 Props/C09.vio: Props/C09.v Base/Prelude.vio Model/Limiter.vio Proofs/LimiterProofs.vio
 Props/C09.vos Props/C09.vok Props/C09.required_vos: Props/C09.v Base/Prelude.vos Model/Limiter.vos Proofs/LimiterProofs.vos
+Props/C07.vo Props/C07.glob Props/C07.v.beautified Props/C07.required_vo: Props/C07.v Base/Prelude.vo Model/Breaker.vo Proofs/BreakerProofs.vo
+Props/C07.vio: Props/C07.v Base/Prelude.vio Model/Breaker.vio Proofs/BreakerProofs.vio
+Props/C07.vos Props/C07.vok Props/C07.required_vos: Props/C07.v Base/Prelude.vos Model/Breaker.vos Proofs/BreakerProofs.vos
+Props/C08.vo Props/C08.glob Props/C08.v.beautified Props/C08.required_vo: Props/C08.v Base/Prelude.vo Model/Breaker.vo Proofs/BreakerProofs.vo
+Props/C08.vio: Props/C08.v Base/Prelude.vio Model/Breaker.vio Proofs/BreakerProofs.vio
+Props/C08.vos Props/C08.vok Props/C08.required_vos: Props/C08.v Base/Prelude.vos Model/Breaker.vos Proofs/BreakerProofs.vos
